@@ -459,8 +459,14 @@ def d4(ctx, prog):
     pm = astutil.parents(pk.node)
     ok = len(flips) == 1 and norm(flips[0].targets[0]) == 'round_keys' and reversal(flips[0].value) == ('round_keys', 1) and \
         any(pol and norm(t).replace(' ', '') == "mode=='decrypt'" for t, pol in astutil.guards(flips[0], pm))
-    ctx.check(ok, 'C05-D4', f'{pk.key}::reverse for decrypt', 'the round keys are not reversed along the round axis (axis 1 of (keys, rounds, 16)) exactly for decryption',
-              'round-key axis reversed for decryption only', pk.where())
+    body_ = [s_ for s_ in pk.node.body if not (isinstance(s_, ast.Expr) and isinstance(s_.value, ast.Constant))]
+    delegates = len(body_) == 1 and isinstance(body_[0], ast.Return) and isinstance(body_[0].value, ast.Call) and isinstance(body_[0].value.func, ast.Attribute) \
+        and isinstance(body_[0].value.func.value, ast.Call)
+    if delegates and not flips:
+        ctx.undecided('C05-D4', f'{pk.key}::reverse for decrypt', f'_prepare_keys only delegates to `{norm(body_[0].value.func)[:60]}` (the cipher gathered into a class): this clause does not follow the delegation', pk.where())
+    else:
+        ctx.check(ok, 'C05-D4', f'{pk.key}::reverse for decrypt', 'the round keys are not reversed along the round axis (axis 1 of (keys, rounds, 16)) exactly for decryption',
+                  'round-key axis reversed for decryption only', pk.where())
     driver(ctx, prog)
 
 
@@ -828,8 +834,16 @@ def pairing_domain(ctx, prog):
                         te.call_hook = hook
                         n += 1
                         legal = len(kshape) <= 2 and len(sshape) <= 2 and not (len(kshape) == 2 and len(sshape) == 2 and kshape[0] != sshape[0])
+                        # only the refusals are of interest: the statements are interpreted up to the last one that can raise
+                        last_raise = max([i_ for i_, st_ in enumerate(f.node.body) if any(isinstance(x_, ast.Raise) for x_ in ast.walk(st_))] + [-1])
+                        env_ = {kp: np.zeros(kshape, dtype=np.uint8), sp: np.zeros(sshape, dtype=np.uint8), mp: mode}
                         try:
-                            te.run(f, {kp: np.zeros(kshape, dtype=np.uint8), sp: np.zeros(sshape, dtype=np.uint8), mp: mode})
+                            for st_ in f.node.body[:last_raise + 1]:
+                                try:
+                                    te.block(f, [st_], env_)
+                                except ratfun.Unknown:
+                                    if any(isinstance(x_, ast.Raise) for x_ in ast.walk(st_)):
+                                        raise
                             got = True
                         except symtensor.Raised:
                             got = False
